@@ -376,6 +376,8 @@ def rand_valid(rng, ts, udns=UDNS, types=TYPES):
     udn = rng.choice(udns)
     ty = rng.choice(types)
     loc, addr = rng.choice(GOOD_LOCS[:4]) if rng.random() < 0.8 else rng.choice(GOOD_LOCS)
+    if rng.random() < 0.08:
+        ty = udn  # the UDA device advertisement: NT / ST uuid:<device-UUID> with the bare USN uuid:<device-UUID>
     cache = rng.choice(CACHE[:8]) if rng.random() < 0.7 else rng.choice(CACHE)
     if rng.random() < 0.04:
         cache = rng.choice(HUGE)
